@@ -27,23 +27,16 @@ theorem finishAssemblies_eq_name (input : List Scaffold) (b : Build) (asms : C09
     C09.finishAssemblies input b (asms, entries, haps, fs) =
       (if haps.isEmpty then pure fs else nameChromosomes b.namer.autosomePrefix fs haps entries)
         >>= C09.outsTail input b asms := by
-  unfold C09.finishAssemblies nameChromosomes
+  unfold C09.finishAssemblies nameChromosomes C09.outsTail
   simp only []
-  cases haps.isEmpty with
-  | true => rfl
-  | false =>
-    simp only [Bool.false_eq_true, if_false]
-    cases buildGroups fs haps entries with
-    | error e => rfl
-    | ok groups =>
-      simp only [bind, Except.bind]
-      cases groupsHaveErrors groups with
-      | true => rfl
-      | false =>
-        simp only [Bool.false_eq_true, if_false]
-        cases List.mapM (fun g => (do let l ← groupFirstLength fs g; pure (l, g) : R (Int × GroupData))) groups with
-        | error e => rfl
-        | ok keyed => rfl
+  split
+  · simp only [pure_bind]
+  · simp only [bind_assoc, pure_bind]
+    congr 1
+    funext groups
+    split <;> simp only [bind_assoc, pure_bind]
+
+theorem ok_bind {α β} (a : α) (f : α → R β) : ((Except.ok a : R α) >>= f) = f a := rfl
 
 /-- total fragments length of a chromosome with its unlocs -/
 def runLength (fs : List Scaffold) (r : Run) : Int := sumInts (r.2.map (fun i => (fs.getD i default).fragmentsLength))
@@ -109,7 +102,8 @@ theorem nameChromosomes_single (prefix_ : Str) (fs : List Scaffold) (h : Str) (e
               (sortedRuns fs (groupRuns (origPairs fs entries)))) fs) := by
   unfold nameChromosomes
   rw [buildGroups_single_ok fs h entries hne hh hg]
-  simp only [bind, Except.bind, groupsHaveErrors_single, Bool.false_eq_true, if_false]
+  rw [ok_bind]
+  simp only [groupsHaveErrors_single, Bool.false_eq_true, if_false]
   have hm := C20.mapM_ok (fun g => (do let l ← groupFirstLength fs g; pure (l, g) : R (Int × GroupData)))
     (fun g => ((match groupFirstLength fs g with | .ok v => v | .error _ => 0), g))
     ((groupRuns (origPairs fs entries)).map (mkGroup h))
@@ -117,7 +111,7 @@ theorem nameChromosomes_single (prefix_ : Str) (fs : List Scaffold) (h : Str) (e
       intro g hgm
       obtain ⟨r, _, rfl⟩ := List.mem_map.1 hgm
       rw [groupFirstLength_mk]; rfl)
-  rw [hm]
+  rw [hm, ok_bind]
   simp only [List.map_map]
   have hk : ((fun g => ((match groupFirstLength fs g with | .ok v => v | .error _ => 0), g)) ∘ mkGroup h)
       = (fun r : Run => (runLength fs r, mkGroup h r)) := by
@@ -192,6 +186,73 @@ theorem flatMap_ids_runs (l : List (Str × Nat)) : (groupRuns l).flatMap (fun r 
   rw [List.map_flatMap]
   congr 1
   funext r
-  simp
+  simp [Function.comp_def]
+
+/-- every id of a run is an entry id whose Pretext name is the run's name -/
+theorem runs_orig (fs : List Scaffold) (entries : List (Str × Nat)) :
+    ∀ r ∈ groupRuns (origPairs fs entries), ∀ i ∈ r.2, r.1 = origOf fs i ∧ i ∈ entries.map (·.2) := by
+  intro r hr i hi
+  have hmem : (r.1, i) ∈ flattenRuns (groupRuns (origPairs fs entries)) :=
+    List.mem_flatMap.2 ⟨r, hr, List.mem_map.2 ⟨i, hi, rfl⟩⟩
+  rw [(groupRuns_spec _).1] at hmem
+  obtain ⟨e, he, heq⟩ := List.mem_map.1 hmem
+  simp only [Prod.mk.injEq] at heq
+  exact ⟨by rw [← heq.1, heq.2], List.mem_map.2 ⟨e, he, heq.2⟩⟩
+
+/-- every entry lies in a run carrying its Pretext name -/
+theorem runs_cover (fs : List Scaffold) (entries : List (Str × Nat)) :
+    ∀ e ∈ entries, ∃ r ∈ groupRuns (origPairs fs entries), r.1 = origOf fs e.2 ∧ e.2 ∈ r.2 := by
+  intro e he
+  have hmem : (origOf fs e.2, e.2) ∈ flattenRuns (groupRuns (origPairs fs entries)) := by
+    rw [(groupRuns_spec _).1]; exact List.mem_map.2 ⟨e, he, rfl⟩
+  obtain ⟨r, hr, hm⟩ := List.mem_flatMap.1 hmem
+  obtain ⟨i, hi, heq⟩ := List.mem_map.1 hm
+  simp only [Prod.mk.injEq] at heq
+  exact ⟨r, hr, heq.1, heq.2 ▸ hi⟩
+
+theorem sortedRuns_perm (fs : List Scaffold) (rs : List Run) : (sortedRuns fs rs).Perm rs := stableSort_perm _ rs
+
+theorem sortedRuns_sorted (fs : List Scaffold) (rs : List Run) :
+    (sortedRuns fs rs).Pairwise (fun a b => runLength fs a ≥ runLength fs b) := by
+  have := stableSort_sorted (fun a b : Run => decide (runLength fs a ≥ runLength fs b))
+    (by intro a b; simp only [decide_eq_true_eq]; omega)
+    (by intro a b c; simp only [decide_eq_true_eq]; omega) rs
+  exact this.imp (fun h => by simpa using h)
+
+theorem sortedRuns_stable (fs : List Scaffold) (rs : List Run) (L : Int) :
+    (sortedRuns fs rs).filter (fun r => runLength fs r = L) = rs.filter (fun r => runLength fs r = L) :=
+  stableSort_filter _ _ (by intro x y hx hy; simp only [decide_eq_true_eq] at hx hy ⊢; omega) rs
+
+/-- the ids of the sorted runs are the entry ids, each once -/
+theorem sortedRuns_ids_nodup (fs : List Scaffold) (entries : List (Str × Nat)) (hnd : (entries.map (·.2)).Nodup) :
+    ((sortedRuns fs (groupRuns (origPairs fs entries))).flatMap (fun r => r.2)).Nodup := by
+  have hp := (sortedRuns_perm fs (groupRuns (origPairs fs entries))).flatMap_right (fun r => r.2)
+  rw [hp.nodup_iff, flatMap_ids_runs]
+  simpa [origPairs, List.map_map, Function.comp_def] using hnd
+
+/-- **numbering**: effect of `nameRuns` on the sorted runs, by position -/
+theorem numbering_core (prefix_ : Str) (fs : List Scaffold) (entries : List (Str × Nat))
+    (hnd : (entries.map (·.2)).Nodup) :
+    let sorted := sortedRuns fs (groupRuns (origPairs fs entries))
+    let fs' := nameRuns prefix_ ((List.range sorted.length).zip sorted) fs
+    fs'.length = fs.length ∧
+    (∀ j, j ∉ entries.map (·.2) → fs'.getD j default = fs.getD j default) ∧
+    (∀ k (hk : k < sorted.length), ∀ j ∈ sorted[k].2,
+        fs'.getD j default = renameScaffold sorted[k].1 (prefix_ ++ natToStr (k + 1)) (fs.getD j default)) := by
+  intro sorted fs'
+  have hfl : ((List.range sorted.length).zip sorted).flatMap (fun p => p.2.2) = sorted.flatMap (fun r => r.2) :=
+    zip_range_flatMap (fun r : Run => r.2) sorted
+  have hnd' := sortedRuns_ids_nodup fs entries hnd
+  obtain ⟨a, b, c⟩ := nameRuns_spec prefix_ ((List.range sorted.length).zip sorted) fs (by rw [hfl]; exact hnd')
+  refine ⟨a, ?_, ?_⟩
+  · intro j hj
+    apply b j
+    rw [hfl]
+    intro hmem
+    obtain ⟨r, hr, hjr⟩ := List.mem_flatMap.1 hmem
+    have hr' : r ∈ groupRuns (origPairs fs entries) := (sortedRuns_perm fs _).mem_iff.1 hr
+    exact hj (runs_orig fs entries r hr' j hjr).2
+  · intro k hk j hj
+    exact c (k, sorted[k]) (mem_zip_range sorted k hk) j hj
 
 end AgpTpf.C10
